@@ -603,3 +603,21 @@ mutant("rid-add-wrapping",
 mutant("rid-overflow-saturates",
        [(E, "                    a.checked_add(*b)\n                        .map(Value::Int)\n                        .ok_or_else(|| new_int_overflow(a, b))", "                    Ok(a.checked_add(*b)\n                        .map(Value::Int)\n                        .unwrap_or(Value::Int(i64::MAX)))")],
        [("C06", "R06.1")], base=RID, note="idioms refactor + overflow saturates via unwrap_or")
+
+RPC = "refactors/perfclone/patch.diff"
+mutant("rpc-concat-holds-both-locks",
+       [(E, "                    let mut items = lock_deref!(a).clone();\n                    items.extend_from_slice(&lock_deref!(b));",
+            "                    let ga = a.try_lock().unwrap();\n                    let mut items = ga.clone();\n                    items.extend_from_slice(&lock_deref!(b));\n                    drop(ga);")],
+       [("C02", "R02.1")], base=RPC, note="perfclone refactor + `xs + xs` locks the same list twice")
+mutant("rpc-concat-empty-rhs-aliases",
+       [(E, "                    let mut items = lock_deref!(a).clone();\n                    items.extend_from_slice(&lock_deref!(b));",
+            "                    if lock_deref!(b).is_empty() {\n                        return Ok(lhs.clone());\n                    }\n                    let mut items = lock_deref!(a).clone();\n                    items.extend_from_slice(&lock_deref!(b));")],
+       [("C05", "R05.4")], base=RPC, note="perfclone refactor + `xs + []` returns xs itself")
+
+RCF = "refactors/constfold/patch.diff"
+mutant("rcf-hex-in-helper",
+       [(L, "    digits.parse::<i64>().map_err(|e| e.kind().clone())", "    if let Some(h) = digits.strip_prefix(\"0x\") {\n        return i64::from_str_radix(h, 16).map_err(|e| e.kind().clone());\n    }\n    digits.parse::<i64>().map_err(|e| e.kind().clone())")],
+       [("C03", "R03.5")], base=RCF, note="constfold refactor + hex parsing in the literal helper makes the panic arm reachable")
+mutant("rcf-negate-any-int",
+       [("src/ast.rs", "    pub fn negated_int_literal(magnitude: i64) -> Self {", "    pub fn negated_int_literal(magnitude: i64) -> Self {\n        let magnitude = magnitude - 1 + 1;")],
+       [("C02", "R02.2")], base=RCF, note="constfold refactor + raw i64 arithmetic in the literal constructor")
